@@ -266,9 +266,9 @@ pub fn def() -> PropDef {
         rule: "Fq / Fr elements (boundary + uniform), their squares (guaranteed residues) and squares times the least non-residue (guaranteed non-residues); Fq2 elements: general, squares, squares times (1+u), embedded Fq elements (real / imaginary root), purely imaginary; comparison partner from the same generator (incl. equal u-coefficients). Oracle: Euler's criterion (of the norm for Fq2), b^2 = a in the model, parity of the canonical integer, integer / lexicographic order. Non-trivial = a not in {0,1}; distinct = distinct cases",
         needs_pairing: false,
         subs: vec![
-            Box::new(Sub { name: "fq", rule: "Fq sqrt / legendre / sgn0 / order / negate_if", quick: 12_000, thorough: 400_000, strategy: || boxed(prime_case_strategy(6)), check: check_fq_prime }),
-            Box::new(Sub { name: "fr", rule: "Fr sqrt (Tonelli-Shanks) / legendre / order", quick: 12_000, thorough: 400_000, strategy: || boxed(prime_case_strategy(4)), check: check_fr_prime }),
-            Box::new(Sub { name: "fq2", rule: "Fq2 sqrt / legendre (of the norm) / sgn0 / lexicographic order / negate_if", quick: 12_000, thorough: 400_000, strategy: || boxed(fq2_case_strategy()), check: check_fq2 }),
+            Box::new(Sub { name: "fq", rule: "Fq sqrt / legendre / sgn0 / order / negate_if", quick: 120_000, thorough: 400_000, strategy: || boxed(prime_case_strategy(6)), check: check_fq_prime }),
+            Box::new(Sub { name: "fr", rule: "Fr sqrt (Tonelli-Shanks) / legendre / order", quick: 120_000, thorough: 400_000, strategy: || boxed(prime_case_strategy(4)), check: check_fr_prime }),
+            Box::new(Sub { name: "fq2", rule: "Fq2 sqrt / legendre (of the norm) / sgn0 / lexicographic order / negate_if", quick: 120_000, thorough: 400_000, strategy: || boxed(fq2_case_strategy()), check: check_fq2 }),
             super::corpus_sub_field(),
         ],
         assumptions: COMMON_ASSUMPTIONS.to_vec(),
